@@ -248,6 +248,10 @@ M('F21R', 'src/xdoctest/checker.py', """            elif got:
 """, """            elif got:
                 raise AssertionError('impossible state')
 """, ['C09'], 'F21 repair reverted: a failing want of <BLANKLINE> lines cannot be rendered')
+M('F22R', 'src/xdoctest/utils/util_import.py', """        base = os.path.normpath(base)
+        subdir = os.path.normpath(dirname(modpath))
+""", """        subdir = dirname(modpath)
+""", ['C17'], 'F22 repair reverted: a search path entry with a trailing separator resolves nothing')
 M('F17R', 'src/xdoctest/doctest_example.py', """                part_directive = None
                 try:
                     try:
